@@ -267,7 +267,7 @@ func runC08(c *core.Ctx) {
 	cells := c08Cells()
 	ncell := uint64(len(cells) * 4)
 	c.Exhaustive("limit table: every (limit, level) cell", ncell)
-	c.Section("table", ncell*c.N(4000, 60000), func(cs *core.Case) {
+	c.Section("table", ncell*c.N(4000, 400000), func(cs *core.Case) {
 		cell := cells[(cs.Idx%ncell)/4]
 		level := int(cs.Idx % 4)
 		if cell.name == "CCFB.metric-blocks" && cs.Idx/ncell%20 != 0 {
